@@ -19,6 +19,9 @@ def one(d):
             rc = subprocess.call(["git", "-C", wt, "apply", "--3way", os.path.join(d, "patch.diff")], stderr=subprocess.DEVNULL)
         if rc != 0:
             meta["applies_at_head"] = False
+            # a stale verdict must not be counted: the patch has to be re-based (tools/rebase_seed.py) first
+            meta["caught_by"], meta["fail_closed_in"], meta["reports"] = [], [], {"note": "patch does not apply to the current tree"}
+            meta["caught_by_own_property_check"] = False
             json.dump(meta, open(meta_p, "w"), indent=1)
             return meta
         meta["applies_at_head"] = True
